@@ -44,7 +44,7 @@ def reset_seams():
     from mathy_core.tree import BinaryTreeNode
     from mathy_core import problems
     BinaryTreeNode._idCounter = 0
-    problems._pretty_numbers = True
+    problems.use_pretty_numbers(True)
     problems.random = _random
     np.seterr(all="warn")
     _random.seed(0)
